@@ -75,7 +75,8 @@ Record bstate : Type := mkBS {
   instrs : list instr;            (* instructions pushed by this build, in order *)
   meta : list (option nat);       (* one record per pushed instruction *)
   jumps : list nat;               (* jump-table entries pushed by this build (absolute targets) *)
-  root_stack : list nat
+  root_stack : list nat;
+  steps : nat                     (* iterations of the node loop so far (max_steps guard) *)
 }.
 
 (* what the data object held before this build *)
@@ -97,13 +98,13 @@ Definition instr_len (s : bstate) : nat := i_instr_len init + length (instrs s).
 Definition jump_len (s : bstate) : nat := i_jump_len init + length (jumps s).
 
 Definition push_instr (s : bstate) (i : instr) (m : option nat) : bstate :=
-  mkBS (bnodes s) (instrs s ++ [i]) (meta s ++ [m]) (jumps s) (root_stack s).
+  mkBS (bnodes s) (instrs s ++ [i]) (meta s ++ [m]) (jumps s) (root_stack s) (steps s).
 Definition push_jump (s : bstate) (target : nat) : bstate :=
-  mkBS (bnodes s) (instrs s) (meta s) (jumps s ++ [target]) (root_stack s).
+  mkBS (bnodes s) (instrs s) (meta s) (jumps s ++ [target]) (root_stack s) (steps s).
 Definition push_root (s : bstate) (r : nat) : bstate :=
-  mkBS (bnodes s) (instrs s) (meta s) (jumps s) (r :: root_stack s).
+  mkBS (bnodes s) (instrs s) (meta s) (jumps s) (r :: root_stack s) (steps s).
 Definition with_bnodes (s : bstate) (l : list (option bnode)) : bstate :=
-  mkBS l (instrs s) (meta s) (jumps s) (root_stack s).
+  mkBS l (instrs s) (meta s) (jumps s) (root_stack s) (steps s).
 
 (* get_from_jump_table_mut(index) = value: only entries of this build can be
    addressed in the model; an index below the initial length would overwrite an
@@ -113,7 +114,7 @@ Definition E_foreign_jump : N := 12%N.
 Definition set_jump (s : bstate) (index target : nat) : res bstate :=
   if Nat.ltb index (i_jump_len init) then Err E_foreign_jump else
   match upd (jumps s) (index - i_jump_len init) (fun _ => target) with
-  | Some l => Ok (mkBS (bnodes s) (instrs s) (meta s) l (root_stack s))
+  | Some l => Ok (mkBS (bnodes s) (instrs s) (meta s) l (root_stack s) (steps s))
   | None => berr
   end.
 
@@ -473,6 +474,13 @@ Definition after_node (s : bstate) (ni : nat) : res bstate :=
   | _ => Ok s
   end.
 
+Definition max_steps : nat := length tree * 16 + 16.
+
+(* the link check at the start of build *)
+Definition links_in_range : bool :=
+  forallb (fun n => match n_left n with Some c => Nat.ltb c (length tree) | None => true end &&
+                    match n_right n with Some c => Nat.ltb c (length tree) | None => true end) tree.
+
 (* inner loop: drain the node stack *)
 Fixpoint drain (fuel : nat) (s : bstate) (current_root_jump : nat) (stack : list nat) : res (bstate * nat) :=
   match fuel with
@@ -481,6 +489,8 @@ Fixpoint drain (fuel : nat) (s : bstate) (current_root_jump : nat) (stack : list
     match stack with
     | [] => Ok (s, fuel')
     | ni :: rest =>
+      let s := mkBS (bnodes s) (instrs s) (meta s) (jumps s) (root_stack s) (S (steps s)) in
+      if Nat.ltb max_steps (steps s) then berr else
       match nth_error tree ni with
       | None => berr
       | Some pn =>
@@ -518,7 +528,7 @@ Fixpoint roots (dfuel : nat) (fuel : nat) (s : bstate) : res bstate :=
     match root_stack s with
     | [] => Ok s
     | root_index :: rest =>
-      let s0 := mkBS (bnodes s) (instrs s) (meta s) (jumps s) rest in
+      let s0 := mkBS (bnodes s) (instrs s) (meta s) (jumps s) rest (steps s) in
       do r <- match nth_error (bnodes s0) root_index with
               | Some (Some b) =>
                 match b_jump_upd b with
@@ -539,10 +549,12 @@ Fixpoint roots (dfuel : nat) (fuel : nat) (s : bstate) : res bstate :=
 Definition build (fuel : nat) (root : nat) : res (bstate * nat) :=
   match tree with
   | [] =>
-    Ok (mkBS [] [(I_EndExpression, ONone)] [None] [] [], 0)
+    Ok (mkBS [] [(I_EndExpression, ONone)] [None] [] [] 0, 0)
   | _ =>
+    if negb (Nat.ltb root (length tree)) then berr else
+    if negb links_in_range then berr else
     let tree_root_jump := i_jump_len init in
-    let s0 := mkBS (map (fun _ => None) tree) [] [] [] [root] in
+    let s0 := mkBS (map (fun _ => None) tree) [] [] [] [root] 0 in
     do s1 <- assign_b s0 root (b_new root tree_root_jump);
     do s2 <- roots fuel fuel s1;
     Ok (s2, tree_root_jump)
